@@ -9,6 +9,11 @@ Leapfrog trajectories are written as op sequences (copy; dh1_dpos; mom in place;
 place; dh1_dpos; mom in place), run through the model and through the real decorators, and the real
 LeapfrogIntegrator must evaluate exactly the same user functions the same number of times.
 
+Tie (T, source text): Props/C18S.lean, on the statement trees regenerated from states.py
+(tools/extractors/state_skeleton.py): recompute iff absent-or-None, one count per real evaluation, aux values stored
+by zip, a copy keeps every cache entry; the generated wrappers read as model operations are free on a hit.  A broken
+obligation adds histories targeted at the changed function and a second pass of the re-evaluation oracle.
+
 Direct oracles on the real code (the property statement): calling again / on a copy / after assigning
 a variable the method does not read evaluates no user function; after a derivative function that also
 returns lower-order values those values are free; explicit integrators evaluate the gradient once per
@@ -23,9 +28,9 @@ from . import c09 as base
 from . import common
 
 PROP = "C18"
-LEAN_MODULES = ["MiciVerif.Props.C18"]
+LEAN_MODULES = ["MiciVerif.Props.C18", "MiciVerif.Props.C18S"]
 LEAN_EXTRA = ["MiciVerif.Model.Cache", "MiciVerif.Proto", "MiciVerif.Generated.CacheDeps"]
-GENERATED = ["cache_deps"]
+GENERATED = ["cache_deps", "state_skeleton"]
 
 USER_FNS = (
     "neg_log_dens", "grad_neg_log_dens", "hess_neg_log_dens", "mtp_neg_log_dens", "constr", "jacob_constr",
@@ -477,7 +482,15 @@ def run(ctx: common.Ctx):
         for f in sorted(cdir.glob("*.json")):
             obj = json.loads(f.read_text())
             ctx.count("corpus_replayed")
-            if replay(ctx, obj):
+            try:
+                again = replay(ctx, obj)
+            except common.MachineryError:
+                raise
+            except Exception as e:  # noqa: BLE001  (an exception of the implementation is a finding, not a crash)
+                ctx.violation(obj.get("signature", "corpus:" + f.name),
+                              f"corpus case {f.name}: implementation raised {type(e).__name__}: {e}", obj)
+                continue
+            if again:
                 ctx.violation(obj.get("signature", "corpus:" + f.name), f"corpus case {f.name} fails again", obj)
     # ---- cost correspondence on random histories ---------------------------------------------
     runs = base.histories(ctx, table, rng, ctx.n(2000, 6000), (15, 41) if ctx.quick else (30, 121))
@@ -499,6 +512,14 @@ def run(ctx: common.Ctx):
             ctx.disagreement("implementation did not return within 30 s", case)
             continue
         lf.append((case, zoos, facts, rr, base.wire_request(table, zoos, facts, ops, n_st)))
+    # ---- escalation: an obligation about the statement trees generated from states.py is broken ----
+    broken = base.skeleton_broken(ctx)
+    if broken:
+        focus = base.skeleton_focus(broken)
+        ctx.extra["skeleton_obligations_broken"] = broken[:20]
+        ctx.extra["escalated_focus"] = focus
+        ctx.count("escalated_search(state skeleton obligation broken)")
+        runs += base.targeted_histories(ctx, table, rng, ctx.n(800, 4000), focus)
     answers = common.run_driver("C18", [r[4] for r in runs + lf]) if runs or lf else []
     for (case, zoos, facts, rr, _req), line in zip(runs + lf, answers, strict=True):
         ops = case["ops"]
@@ -536,6 +557,8 @@ def run(ctx: common.Ctx):
             check_costs(ctx, table, case, line, zoos, rr)
     # ---- direct oracles ---------------------------------------------------------------------------
     oracle_no_reeval(ctx, table, rng)
+    if broken:
+        oracle_no_reeval(ctx, table, rng)  # second pass with new configurations / values
     oracle_aux_free(ctx, table, rng)
     oracle_once_per_position(ctx, table, rng)
     oracle_trajectories(ctx, table, rng)
@@ -581,7 +604,13 @@ LEVEL_TEXT = (
     "steps, written as the operations LeapfrogIntegrator.step performs, evaluate the gradient wrapper n+1 times from a state "
     "without cached gradient and n times otherwise, after any prior history; `leapfrog_gaussian_grad_count` for the Gaussian-split "
     "h2_flow) with `generated_leapfrog_shape(_gaussian)` tying the hypothesis to the generated table for EuclideanMetricSystem "
-    "and GaussianEuclideanMetricSystem."
+    "and GaussianEuclideanMetricSystem. Props/C18S (statement trees regenerated from src/mici/states.py on this run): "
+    "`skel_recompute_iff_absent_or_none` (the wrapped method is called at one place, guarded by `key not in cache or cache[key] "
+    "is None`), `skel_call_count_incremented_only_on_compute`, `skel_hit_returns_cached_entry`, `skel_aux_values_stored_by_zip`, "
+    "`skel_copy_keeps_all_cache_entries`, `skel_copy_shares_call_counts`, `skel_setattr_invalidates_only_dependents`, "
+    "`skel_call_counts_never_none`, `sem_wrap_plans`; `sem_hit_is_free` / "
+    "`sem_miss_counts_once` - the wrappers generated from the source, read as operations on the model heap, evaluate nothing on "
+    "a valid entry and count the method once otherwise (whole-function equalities with the annotated model trees: Props/C09S)."
 )
 LEVEL_NOTE = (
     "The model counts evaluations of wrapped methods; the harness ties them to evaluations counted by the user functions "
